@@ -350,6 +350,18 @@ FN_PROPS["C16"] = {
             "documents, nesting depth up to 3*10^6, 20000 random byte strings"}
 
 
+FN_PROPS["C17"] = {
+    "title": "mock Omaha server conforms to the client it doubles for", "module": "MockServer", "cmd": "mock",
+    "cfg": {"quick": ["mock.cfg"], "thorough": ["mock.cfg"]}, "prefixes": ["MOCK"],
+    "nontrivial": lambda v: True,
+    "rule": "every response map over 1..3 apps (all five decisions for one and two apps), every request order, update-check "
+            "and event requests, three server key sets (latest + historical) x four client key configurations (none / each id), "
+            "four service URL shapes (with and without path and query), and request/reconfigure histories of length 3 over "
+            "the small maps - enumerated by TLC from MockServer.tla with the expected answer and state-machine outcome; "
+            "requests are built by the client library, answered by handle_request in-process, parsed and verified by the "
+            "client, cross-verified against the other exchanges, and the real state machine is run against the server"}
+
+
 def cup_flips(rng, tier):
     return [{"k": "flips", "i": rng.randint(0, 1 << 30), "_": "CUP"} for _ in range(4 if tier == "quick" else 50)]
 
